@@ -402,6 +402,49 @@ Qed.
 Lemma wfI_snoc (I : list (list nat)) (Ts : list (tensor F)) lx X : wfI I Ts -> length lx = length (shape X) -> wfI (I ++ [lx]) (Ts ++ [X]).
 Proof. intros H1 H2. apply Forall2_app; [exact H1 | now constructor]. Qed.
 
+Lemma max_all_eq c : forall xs, xs <> [] -> (forall x, In x xs -> x = c) -> fold_right Nat.max 0 xs = c.
+Proof.
+  induction xs as [|x xs IH]; intros Hne H; [congruence|]. cbn [fold_right]. rewrite (H x (or_introl eq_refl)).
+  destruct xs as [|y xs]; [cbn; lia|]. rewrite IH; [lia | discriminate | intros z Hz; apply H; now right].
+Qed.
+(* when all axes of a label agree np.einsum broadcasts nothing: the call is the plain einsum of the model *)
+Lemma einsum_np_sizes_ok (ins : list (list nat)) (out : list nat) (ts : list (tensor F)) :
+  length ins = length ts -> einsum_sizes_ok ins ts = true -> einsum_np Op ins out ts = Ok (einsum Op ins out ts).
+Proof.
+  intros Hlen Hok. unfold einsum_sizes_ok in Hok. rewrite forallb_forall in Hok.
+  set (pairs := concat (map (fun p => combine (fst p) (shape (snd p))) (combine ins ts))).
+  assert (Hpair : forall ls t l sz, In (ls, t) (combine ins ts) -> In (l, sz) (combine ls (shape t)) -> sz = label_size ins ts l /\ In (l, sz) pairs).
+  { intros ls t l sz Hp Hq. specialize (Hok _ Hp). cbn [fst snd] in Hok. apply andb_true_iff in Hok. destruct Hok as [_ H2].
+    rewrite forallb_forall in H2. specialize (H2 _ Hq). cbn [fst snd] in H2. apply Nat.eqb_eq in H2. split; [exact H2|].
+    unfold pairs. apply in_concat. exists (combine ls (shape t)). split; [|exact Hq].
+    apply in_map_iff. exists (ls, t). split; [reflexivity | exact Hp]. }
+  assert (Hall : forall l sz, In (l, sz) pairs -> sz = label_size ins ts l).
+  { intros l sz Hin. unfold pairs in Hin. apply in_concat in Hin. destruct Hin as [c [Hc Hin]].
+    apply in_map_iff in Hc. destruct Hc as [[ls t] [<- Hp]]. cbn [fst snd] in Hin. now destruct (Hpair ls t l sz Hp Hin). }
+  assert (Hfull : forall l sz, In (l, sz) pairs -> label_full ins ts l = label_size ins ts l).
+  { intros l sz Hin. unfold label_full. fold pairs. apply max_all_eq.
+    - intros E. assert (Hx : In sz (map snd (filter (fun p => fst p =? l) pairs))).
+      { apply in_map_iff. exists (l, sz). split; [reflexivity|]. apply filter_In. split; [exact Hin | cbn [fst]; apply Nat.eqb_refl]. }
+      rewrite E in Hx. destruct Hx.
+    - intros x Hx. apply in_map_iff in Hx. destruct Hx as [[l' sz'] [<- Hf]]. apply filter_In in Hf. destruct Hf as [Hf E].
+      cbn [fst snd] in *. apply Nat.eqb_eq in E. subst l'. now apply Hall. }
+  assert (Hb : einsum_bcast_ok ins ts = true).
+  { unfold einsum_bcast_ok. apply forallb_forall. intros [ls t] Hp. cbn [fst snd]. pose proof (Hok _ Hp) as H. cbn [fst snd] in H.
+    apply andb_true_iff in H. destruct H as [H1 _]. apply andb_true_iff. split; [exact H1|].
+    apply forallb_forall. intros [l sz] Hq. cbn [fst snd]. destruct (Hpair ls t l sz Hp Hq) as [E Hin].
+    rewrite (Hfull l sz Hin), E, Nat.eqb_refl. reflexivity. }
+  unfold einsum_np. rewrite Hb. f_equal. f_equal.
+  rewrite <- (map_snd_combine_eq ins ts Hlen) at 2. apply map_ext_in. intros [ls t] Hp. cbn [fst snd].
+  pose proof (Hok _ Hp) as H. cbn [fst snd] in H. apply andb_true_iff in H. destruct H as [H1 _]. apply Nat.eqb_eq in H1. unfold ndim in H1.
+  assert (E : map (label_full ins ts) ls = shape t).
+  { apply nth_ext with (d := 0) (d' := 0); [now rewrite map_length|]. intros k Hk. rewrite map_length in Hk.
+    rewrite (nth_map' _ _ _ 0) by exact Hk.
+    assert (Hq : In (nth k ls 0, nth k (shape t) 0) (combine ls (shape t))).
+    { rewrite <- (combine_nth ls (shape t) k 0 0 H1). apply nth_In. rewrite combine_length. lia. }
+    destruct (Hpair ls t _ _ Hp Hq) as [E Hin]. now rewrite (Hfull _ _ Hin), E. }
+  unfold bcast_operand. rewrite E, nat_list_eq_refl. reflexivity.
+Qed.
+
 Lemma sizes_ok_snoc (I : list (list nat)) (Ts : list (tensor F)) lx X : wfI I Ts -> einsum_sizes_ok I Ts = true ->
   length lx = length (shape X) ->
   (forall k, k < length lx -> nth k (shape X) 0 = label_size (I ++ [lx]) (Ts ++ [X]) (nth k lx 0)) ->
@@ -428,11 +471,10 @@ Lemma mmd_loops_agree (tr : bool) (T : tensor F) : forall (L : list (@triple F))
   lsorted (@t_mode F) L -> NoDup (map (@t_mode F) L) -> Forall (operand_fits tr (shape T)) L -> (forall y, In y L -> p <= t_mode y) ->
   mmd_loop Op L None tr (s_dec st) (einsum Op I out Ts)
   = rbind (mmd_e_loop Op L None tr order st) (fun st' =>
-      if einsum_sizes_ok (seq 0 order :: s_ins st') (T :: s_ops st')
-      then Ok (einsum Op (seq 0 order :: s_ins st') (s_out st') (T :: s_ops st')) else Err).
+      einsum_np Op (seq 0 order :: s_ins st') (s_out st') (T :: s_ops st')).
 Proof.
   induction L as [|[[X m] i] L IH]; intros st p order I Ts out Hw Hnd HoutI Hcnt Hdec Hskip Hpos Hsz Hsok Hsort HndL Hfit Hp;
-    [cbn [mmd_loop mmd_e_loop rbind]; fold order I Ts; now rewrite Hsok|].
+    [cbn [mmd_loop mmd_e_loop rbind]; symmetry; exact (einsum_np_sizes_ok I out Ts (wfI_length _ _ Hw) Hsok)|].
   destruct Hsort as [Hx Hsort]. cbn [map] in HndL. inversion HndL as [|? ? Hnin HndL']; subst.
   inversion Hfit as [|? ? [Hm [WX Hsh]] Hfit']; subst. cbn [t_mode fst snd] in *.
   assert (Hpm : p <= m) by (apply (Hp (X, m, i)); now left).
